@@ -94,6 +94,10 @@ def handle (req : Sexp) : Sexp :=
     match nats? xs with
     | some l => .list ((partitions l).map natss)
     | none => bad
+  | .list [.atom "blockcands", xs, cur] =>
+    match nats? xs, (do let cs ← cur.asList?; cs.mapM nats?) with
+    | some l, some cur => .list ((blockStructureCandidates l cur).map natss)
+    | _, _ => bad
   | .list [.atom "rawpartitions", xs] =>
     match nats? xs with
     | some l => .list ((rawPartitions l).map natss)
